@@ -248,5 +248,8 @@ def GaugeH.wf (h : GaugeH) : Bool :=
     | none => false) &&
   (h.nidMap.all fun p => h.nidMap.all fun q => p.1 == q.1 || p.2 != q.2)
 
+/-- `len(h.bond_dims) == h.nsites + 1` -/
+def GaugeH.dimsOk (h : GaugeH) : Bool := h.bondDims.length == h.nsites + 1
+
 end
 end Ptn.Ham
